@@ -108,4 +108,6 @@ theorem styled_circle_pixels_eq_draw (st : PrimStyle) (c : Circle) (B : Rect)
 example : (Circle.strokeArea ⟨some 1, some 2, 0, .inside⟩ ⟨⟨-3, 2⟩, 4⟩).InRange ∧
     (Circle.fillArea ⟨some 1, some 2, 0, .inside⟩ ⟨⟨-3, 2⟩, 4⟩).InRange := by decide
 
+-- [V] that `draw()` issues the same call list whatever the target type (Rust parametricity of `draw_styled` in `D: DrawTarget`): carried by correspondence + oracle only (R1 and R2 logs/maps compared per op)
+-- [V] ellipse / rounded rectangle: equality of the fill-only scanline sources (`Scanlines(fill_area)` vs `StyledScanlines(..).fill()`) belongs to their topic modules; `scanline_paths_agree` applies to them as is
 end EG.C01
